@@ -264,17 +264,47 @@ def leafBuild (h : Hashes) (extra : List (List String)) (body : J) : DiffBaseLea
       let e ← baseBuild ignored extra body
       liftD (remove e field)
 
-def multiBuild (h : Hashes) (extra : List (List String)) : J → List DiffBaseLeaf → Except Err J
+/-- `body['metadata']['ownerReferences']` if `metadata` is a mapping that has it. -/
+def ownerRefs (body : J) : Option J :=
+  match body.get? "metadata" with
+  | some (.obj m) => lookup "ownerReferences" m
+  | _ => none
+
+/-- `pseudo.get('metadata', {})` as bindings (the essence's `metadata` is a mapping or absent). -/
+def metaKvs (kvs : List (String × J)) : List (String × J) :=
+  match lookup "metadata" kvs with
+  | some (.obj mm) => mm
+  | _ => []
+
+def withKind (body : J) (kvs : List (String × J)) : List (String × J) :=
+  match body.get? "kind" with
+  | some k => insert "kind" k kvs
+  | none => kvs
+
+def withOwners (body : J) (kvs : List (String × J)) : List (String × J) :=
+  match ownerRefs body with
+  | some o => insert "metadata" (.obj (insert "ownerReferences" o (metaKvs kvs))) kvs
+  | none => kvs
+
+/-- the `pseudo` body of `MultiDiffBaseStorage.build` (since kopf 55b75e2): the essence so far, plus
+    the two fields of the real body that decide the annotation names (`kind`,
+    `metadata.ownerReferences` — see `CollisionEvadingConvention.mark_key`). -/
+def pseudoBody (body e : J) : J :=
+  match e with
+  | .obj kvs => .obj (withOwners body (withKind body kvs))
+  | e => e
+
+def multiBuild (h : Hashes) (extra : List (List String)) (body : J) : J → List DiffBaseLeaf → Except Err J
   | e, [] => .ok e
   | e, l :: ls => do
-      let e' ← leafBuild h extra e l
-      multiBuild h extra e' ls
+      let e' ← leafBuild h extra (pseudoBody body e) l
+      multiBuild h extra body e' ls
 
 def diffbaseBuild (h : Hashes) (extra : List (List String)) (body : J) : DiffBaseCfg → Except Err J
   | .leaf l => leafBuild h extra body l
   | .multi ls => do
       let e ← baseBuild [] extra body
-      multiBuild h extra e ls
+      multiBuild h extra body e ls
 
 /-! ### ProgressStorage.clear -/
 
